@@ -1213,6 +1213,9 @@ def ctor_model(self, e, st, spec):
         ann = args[1] if len(args) > 1 else kw.get("annotation", NONE)
         return mk_unit(seg, ann)
     cls = name
+    if isinstance(e.func, ast.Name) and isinstance(st.env.get(e.func.id), PyConst) and isinstance(st.env[e.func.id].value, tuple) \
+            and st.env[e.func.id].value[0] == "class":
+        cls = st.env[e.func.id].value[1]          # `cls()` inside a classmethod
     q = self.method_contract(cls, "__init__") if cls in CLASS_FILE else None
     if q is not None:
         callee = self.registry[q]
@@ -1299,12 +1302,16 @@ def coerce_arg(self, t, v, st):
     if isinstance(t, OptT):
         if isinstance(v, Opt):
             return v
+        if isinstance(v, Rec) and v.cls == "Field":
+            return Opt(z3.BoolVal(False), v.fields["text"])      # csv never yields None: a field is a string
         tmpl = t.elem.fresh(V.fresh_name("dflt"))
         if isinstance(v, NoneV):
             return Opt(z3.BoolVal(True), tmpl)
         return Opt(z3.BoolVal(False), coerce_elem(self, tmpl, v))
     if isinstance(t, RealT) and is_int(v):
         return z3.ToReal(v)
+    if isinstance(t, RealT) and isinstance(v, Rec) and v.cls == "Field":
+        return v.fields["text"]          # a csv field used as a string
     if isinstance(t, UnitT) and isinstance(v, Opt) and isinstance(v.val, UnitV):
         # an Optional[Unit] passed where a Unit is expected: it must not be None on this path
         self.oblige(st, z3.Not(v.isnone), f"unit-not-None#{len(self.obls)}", "exception-freedom", None,
